@@ -42,9 +42,24 @@ def run(chk):
         chk.evaluations += 1
         if fails:
             found += chk.violation('refinement', fails[0], {'kind': 'refine-twice', 'case': case})
+    # an evolvent that already served queries for another box and was then given this one (SetBounds): images lie in the CURRENT box
+    for _ in range(60 if thorough else 20):
+        n = rng.choice([1, 2, 3])
+        lo, hi = H.random_box(rng, n)
+        lo2 = [a - rng.choice([0.5, 2, 7]) for a in lo]; hi2 = [b + rng.choice([0.5, 1, 4]) for b in hi]
+        if rng.random() < 0.5:
+            lo2, hi2 = [b + 1.0 for b in hi], [b + 3.0 for b in hi]
+        case = {'n': n, 'm': 10 if n == 1 else rng.choice([3, 6, 10]), 'lo': lo, 'hi': hi, 'x': rng.choice([rng.random(), 0.5, 0.25]),
+                'prehistory': [('other_bounds', lo2, hi2), ('img', rng.random()), ('img', 0.5)]}
+        fails = O.guarded(O.c07_point, case)
+        chk.evaluations += 1
+        if fails:
+            found += chk.violation('outside-box', fails[0], {'kind': 'setbounds', 'case': case})
+            if found > 2:
+                break
     if not found:
         for c in bad_img[:2]:
-            chk.violation('image-mismatch', 'GetImage disagrees with the model (code %d)' % c['code'], {'kind': 'image-corr', 'case': c})
+            chk.violation('image-mismatch', 'GetImage disagrees with the model (code %d)' % c['code'], {'kind': 'image-corr', 'case': c}, found_input=False)
 
 
 def refine_twice(case):
@@ -52,7 +67,13 @@ def refine_twice(case):
     p, s = O.build(case)
     f = H.objective(case['objective'])
     with H.quiet():
-        s.DoGlobalIteration(case['iters'])
+        try:
+            s.DoGlobalIteration(case['iters'])
+        except Exception as e:  # noqa
+            # driving DoGlobalIteration past convergence (no stop check) ends in the float-resolution guard of
+            # CalculateNextPointCoordinate: that is outside C05 (see finding F8 under C03); the trials made so far are still checked
+            if 'x is outside of interval' not in str(e):
+                raise
         g = min(v for _, v in p.log)
         for k in (30, 5):
             s.DoLocalRefinement(k)
@@ -68,7 +89,12 @@ def refine_twice(case):
             g = min(g, val)
         # the search goes on after a refinement: what is reported must stay the objective at the reported point
         for k in (1, 3):
-            s.DoGlobalIteration(k)
+            try:
+                s.DoGlobalIteration(k)
+            except Exception as e:  # noqa
+                if 'x is outside of interval' not in str(e):
+                    raise
+                break
             sol = s.GetResults()
             pt = [float(v) for v in sol.bestTrials[0].point.floatVariables]
             val = sol.bestTrials[0].functionValues[0].value
@@ -83,6 +109,9 @@ def refine_twice(case):
 
 
 def replay(chk, rp):
+    if rp.get('kind') == 'setbounds':
+        c = rp['case']; c['prehistory'] = [tuple(o) for o in c['prehistory']]
+        fails = O.guarded(O.c07_point, c); print(fails); return not fails
     fails = O.guarded(O.c05 if rp.get('kind') == 'solve' else refine_twice, rp['case'])
     print(fails)
     return not fails
